@@ -34,6 +34,15 @@ def callsite_view(R, target, args=None, returns=None, modifies=None, call_ensure
     return c
 
 
+def add_effects(R, target, args, effects, note="", returns=None):
+    """Attach ghost effects to a (trusted, external) callee shared by several contracts, keeping the effects other registrations attached."""
+    c = R.contracts.get(target)
+    if c is None:
+        c = R.contract(target, args=args, returns=returns, trusted=True, note=note)
+    c.effects.update(effects)
+    return c
+
+
 def _only(prop, d):
     return {k: v for k, v in d.items() if k.startswith(prop + "_")}
 
@@ -439,7 +448,7 @@ def register_worker_task(R, prop):
                "(0 if ghost('wdfa') == 1 and is_instance(item, 'ScenarioFinished') and item.id is ghost('wsid') else "
                "(0 if ghost('wdfa') == 0 and is_instance(item, 'NonFatalError') and not item.related_to_operation else "
                "(5 if ghost('wdfa') == 0 and is_instance(item, 'Interrupted') else -1)))))")
-    R.contract("queue:Queue.put", args={"self": Opq("Queue"), "item": Opq("Any")}, returns=NoneT, trusted=True,
+    add_effects(R, "queue:Queue.put", args={"self": Opq("Queue"), "item": Opq("Any")}, returns=NoneT,
                effects={"wdfa": PUT_DFA, "wsid": "item.id if is_instance(item, 'ScenarioStarted') else ghost('wsid')",
                         "closed": "ghost('closed') + (1 if is_instance(item, 'ScenarioFinished') or (is_instance(item, 'NonFatalError') and ghost('wdfa') == 0) else 0)",
                         "started_after_stop": "ghost('started_after_stop') or (is_instance(item, 'ScenarioStarted') and ghost('last_guard'))"},
@@ -534,5 +543,110 @@ def register_cached_test_func(R, prop):
         raises=["KeyboardInterrupt", FAIL, "schemathesis.core.failures:FailureGroup", "UnexpectedError"],
         ensures=_only(prop, ensures),
         raises_ensures=_only(prop, raises_ensures),
+        replayable=False,
+    )
+
+
+# ------------------------------------------------------------------------------------------------ stateful: execute_state_machine_loop
+SFX = ENG + ".phases.stateful._executor:"
+
+
+def register_stateful_loop(R, prop):
+    R.opaque_classes.update({"Queue": "queue:Queue", "SCtx": ENG + ".phases.stateful.context:StatefulContext"})
+    R.exception_classes.update(EXT_EXC)
+    R.exception_classes["hypothesis.errors.Flaky"] = ["Exception"]
+    OUTCOMES = ["KeyboardInterrupt", "unittest.case.SkipTest", "schemathesis.core.failures:FailureGroup", HE + "Flaky", HE + "Unsatisfiable", "RuntimeError"]
+    if not hasattr(R, "exception_factories"):
+        R.exception_factories = {}
+
+    def _fg(it, env=None):
+        e = it.make_exc(it.resolve_exc_class("schemathesis.core.failures:FailureGroup", None), ())
+        e.fields["exceptions"] = [it.make_exc(it.resolve_exc_class("AssertionError", None), ())]
+        return e
+
+    R.exception_factories["schemathesis.core.failures:FailureGroup"] = _fg
+    # the Hypothesis state machine run (E2): returns, or raises one of the documented outcomes; the ghost records with which seed each suite ran
+    R.contract("spec:machine_run", args={"machine": Opq("Any"), "settings": Opq("Any")}, returns=NoneT, raises=OUTCOMES, trusted=True,
+               effects={"seed_ok": "ghost('seed_ok') and seed_of(machine) == expected_seed()", "runs": "ghost('runs') + 1",
+                        "last_outcome": "'ok' if raised is None else raised"},
+               modifies={}, note="E2: runs the rule-based state machine once; re-raises what a step / check raised")
+
+    def _seeded(it, args, kw):
+        from pyvc.values import VObj
+
+        seed = args[0]
+
+        def deco(it2, a, k):
+            return VObj(it2.resolve_class("spec:SeededMachine"), {"seed": seed, "cls": a[0]})
+
+        from pyvc.interp import BuiltinFn
+
+        return BuiltinFn("hypothesis.seed(...)", deco)
+
+    R.extern["hypothesis.seed"] = _seeded
+    R.nominal_methods["spec:SeededMachine"] = {"run": lambda it, obj, a, k: it.abstract_call(R.contracts["spec:machine_run"], "spec:machine_run", [obj, k.get("settings")], {}, None)}
+    R.nominal_methods["spec:StateMachineBase"] = {"run": lambda it, obj, a, k: it.abstract_call(R.contracts["spec:machine_run"], "spec:machine_run", [obj, k.get("settings")], {}, None)}
+
+    def seed_of(it, machine):
+        from pyvc.values import VObj
+
+        return machine.fields["seed"] if isinstance(machine, VObj) and "seed" in machine.fields else None
+
+    def expected_seed(it):
+        s0 = it.ghost["seed0"]
+        if s0 is None:
+            return None
+        import ast as _ast
+        from pyvc import ops as _ops
+
+        return _ops.binop(it, _ast.Add(), s0, it.ghost["runs"])
+
+    R.spec_funcs["seed_of"] = seed_of
+    R.spec_funcs["expected_seed"] = expected_seed
+    R.contract(SFX + "_get_hypothesis_settings_kwargs_override", args={"settings": Opq("Any")}, returns=Const({}), trusted=True,
+               note="defaults for the state machine run (own contract in C12); here: no override needed")
+    R.contract(ENG + ".phases.stateful.context:StatefulContext", abstract_only=True, args={"metric_collector": Opq("Any")}, returns=Opq("SCtx"), note="per-phase bookkeeping")
+    R.contract("schemathesis.generation.targets:TargetMetricCollector", abstract_only=True, args={"targets": Opq("Any")}, returns=Opq("Collector"), note="targets")
+    for m in ("mark_as_seen_in_run", "mark_current_suite_as_seen_in_run", "reset"):
+        R.contract(ENG + f".phases.stateful.context:StatefulContext.{m}", args={"self": Opq("SCtx"), "x": Opq("Any")}, returns=NoneT, trusted=True, note="bookkeeping")
+    R.contract(ENG + ".phases.stateful.context:StatefulContext.completed_scenarios", kind="attribute", args={"self": Opq("SCtx")}, returns=IntRange(0, None), trusted=True, note="counter")
+    R.contract(ECX + ".transport_kwargs", kind="attribute", args={"self": Opq("Any")}, returns=Opq("Kwargs"), trusted=True, note="C14 contract")
+    PUT = ("(1 if ghost('sdfa') == 0 and is_instance(item, 'SuiteStarted') else "
+           "(2 if ghost('sdfa') == 1 and is_instance(item, 'Interrupted') else "
+           "(1 if ghost('sdfa') == 1 and is_instance(item, 'NonFatalError') else "
+           "(0 if ghost('sdfa') in (1, 2) and is_instance(item, 'SuiteFinished') and item.id is ghost('suite_id') else -1))))")
+    add_effects(R, "queue:Queue.put", args={"self": Opq("Queue"), "item": Opq("Any")}, returns=NoneT,
+               effects={"sdfa": PUT, "suite_id": "item.id if is_instance(item, 'SuiteStarted') else ghost('suite_id')",
+                        "last_suite_status": "item.status.name if is_instance(item, 'SuiteFinished') else ghost('last_suite_status')",
+                        "errors_reported": "ghost('errors_reported') + (1 if is_instance(item, 'NonFatalError') else 0)",
+                        # a new suite starts: no run outcome belongs to it yet
+                        "last_outcome": "'none' if is_instance(item, 'SuiteStarted') else ghost('last_outcome')"},
+               note="E5: thread-safe FIFO put")
+    inv = {
+        "index": "i",
+        "modifies": {"seed": OneOf(NoneT, Int), "suite_status": Opq("Any"), "suite_started": Opq("Any"), "suite_id": Opq("Any"), "InstrumentedStateMachine": Opq("Any"),
+                     "engine.control.stop_event.flag": Bool, "engine.control.has_reached_the_failure_limit": Bool,
+                     "ghost:sdfa": Int, "ghost:suite_id": Opq("Any"), "ghost:runs": IntRange(0, None), "ghost:seed_ok": Bool, "ghost:last_outcome": Str,
+                     "ghost:last_suite_status": Str, "ghost:errors_reported": IntRange(0, None)},
+        "clauses": ["ghost('sdfa') == 0", "ghost('seed_ok')", "iff(seed is None, ghost('seed0') is None)", "implies(seed is not None, seed == ghost('seed0') + ghost('runs'))"],
+    }
+    ensures = {
+        "C11_every_suite_is_opened_and_closed": "ghost('sdfa') == 0 and ghost('last_suite_status') != 'none'",
+        "C13_every_suite_runs_with_seed_plus_suite_index": "ghost('seed_ok')",
+        "C05_failures_and_errors_reach_the_suite_status": "implies(ghost('last_outcome') in ('schemathesis.core.failures:FailureGroup', 'hypothesis.errors.Flaky'), ghost('last_suite_status') == 'FAILURE') and "
+                                                          "implies(ghost('last_outcome') == 'RuntimeError', ghost('last_suite_status') == 'ERROR' and ghost('errors_reported') >= 1)",
+        "C05_interrupt_reported": "implies(ghost('last_outcome') == 'KeyboardInterrupt', ghost('last_suite_status') == 'INTERRUPTED' and engine.control.stop_event.flag is True)",
+    }
+    R.contract(
+        SFX + "execute_state_machine_loop",
+        prop=prop,
+        args={"state_machine": Obj("spec:StateMachineBase"), "event_queue": Opq("Queue"),
+              "engine": Engine(abstract_limit=True, config=Obj(ENG + ".config:EngineConfig", override=NoneT,
+                               execution=Obj(ENG + ".config:ExecutionConfig", hypothesis_settings=Obj("spec:Settings", max_examples=IntRange(1, None)), targets=Opq("Any"),
+                                             seed=OneOf(NoneT, Int), unique_inputs=Bool, checks=Opq("Any"))))},
+        ghost={"sdfa": 0, "suite_id": None, "runs": 0, "seed_ok": True, "last_outcome": "none", "last_suite_status": "none", "errors_reported": 0, "seed0": None},
+        ghost_init={"seed0": "engine.config.execution.seed"},
+        invariants={0: inv},
+        ensures=_only(prop, ensures),
         replayable=False,
     )
